@@ -196,7 +196,7 @@ _p("C15", "exploration",
    "no pending snapshot; then three proposals at the leader must be applied by every member within 12 more election timeouts. The README exception "
    "(a survivor whose two-voter configuration half still contains a removed or demoted node) is recognised and skipped. This check found F7 (the "
    "automatic leave of a joint configuration was never retried after an aborted leadership transfer), repaired in /repo. Proved (Props/C15.v): "
-   "heartbeat responses un-pause a follower; a pending transfer is aborted when the election timeout elapses. Supporting theorems (Props/C15.v): a heartbeat response unpauses a probing follower; a pending transfer is given up at the election timeout and the automatic leave of a joint configuration is then retried; the election timer of a non-leader counts and, at the randomized timeout, a node that may campaign becomes pre-candidate or candidate.",
+   "heartbeat responses un-pause a follower; a pending transfer is aborted when the election timeout elapses. The monitors also watch that a tick never restarts the election timer of a node that cannot campaign. Supporting theorems (Props/C15.v): a heartbeat response unpauses a probing follower; a pending transfer is given up at the election timeout and the automatic leave of a joint configuration is then retried; the election timer of a non-leader counts and, at the randomized timeout, a node that may campaign becomes pre-candidate or candidate.",
    ["the fault-free suffix assumes a cooperative application: the leader's storage offers a snapshot covering its applied index and membership when one must be sent"])
 _p("C16", "proof",
    "Proved (Props/C16.v): limitSize / raftLog.slice / entries return within the budget or a single entry, for every log and storage; every MsgApp "
